@@ -86,6 +86,24 @@ def _fn_defaults(out, path, f, seen_fn):
             extra = {k: v for k, v in fd.items() if k != "__wrapped__"}
             if extra:
                 out[f"{path}.__dict__"] = _dig(extra)
+        cl = getattr(g, "__closure__", None)
+        if cl:
+            cells = []
+            for c in cl:
+                try:
+                    v = c.cell_contents
+                except ValueError:
+                    continue
+                if isinstance(v, (dict, list, set, tuple, int, float, str, bool, bytes, type(None), np.ndarray)) or (type(v).__module__ or "").startswith("OpenPinch"):
+                    cells.append(v)
+            if cells:
+                out[f"{path}.__closure__"] = _dig(cells)
+        ci = getattr(g, "cache_info", None)
+        if callable(ci):
+            try:
+                out[f"{path}.cache_info"] = _dig(tuple(ci()))
+            except Exception:
+                pass
         g = getattr(g, "__wrapped__", None)
         hops += 1
 
@@ -130,11 +148,45 @@ def fingerprint(prefix="OpenPinch", exclude_paths=()) -> dict:
                             continue
                         out[f"{cpath}.{an}"] = _dig(av)
                 continue
+            if callable(getattr(val, "cache_info", None)) and hasattr(val, "__wrapped__"):
+                _fn_defaults(out, path, val, seen_fn)
+                continue
             out[path] = _dig(val)
+    out.update(ambient())
     for p in exclude_paths:
         for k in [k for k in out if k.startswith(p)]:
             del out[k]
     return out
+
+
+def ambient() -> dict:
+    """Process-wide settings a library call has no business changing (reported under the pseudo-module 'ambient')."""
+    import os
+    import warnings
+
+    out = {}
+    out["ambient:os.environ"] = _dig(dict(os.environ))
+    out["ambient:numpy.errstate"] = _dig(np.geterr())
+    po = np.get_printoptions()
+    out["ambient:numpy.printoptions"] = _dig({k: (v if isinstance(v, (int, float, str, bool, type(None))) else repr(v)) for k, v in po.items()})
+    out["ambient:warnings.filters"] = _dig([(f[0], getattr(f[1], "pattern", f[1]), getattr(f[2], "__name__", str(f[2])), getattr(f[3], "pattern", f[3]), f[4]) for f in warnings.filters])
+    out["ambient:cwd"] = os.getcwd()
+    out["ambient:logging.root"] = _dig((logging.getLogger().level, len(logging.getLogger().handlers), logging.root.manager.disable))
+    try:
+        import pandas as pd
+
+        out["ambient:pandas.options"] = _dig({k: repr(pd.get_option(k)) for k in ("mode.copy_on_write", "display.precision", "mode.chained_assignment", "future.no_silent_downcasting") if k in pd.options.__dir__() or True and _has_opt(pd, k)})
+    except Exception:
+        pass
+    return out
+
+
+def _has_opt(pd, k):
+    try:
+        pd.get_option(k)
+        return True
+    except Exception:
+        return False
 
 
 def diff(a: dict, b: dict) -> list[str]:
